@@ -121,7 +121,7 @@ PROPS = {
             dict(harness="hist", prop="hist_c10align", kind="enum"),
             dict(harness="hist", prop="hist_c10", cases=(8000, 200000), size=(40, 120)),
             dict(harness="tables", prop="c10_struct", cases=(48000, 1600000), size=(30, 60)),
-            dict(harness="codec", prop="c06_vals", kind="enum"),   # encoder level: every write call's return value (boundary values x fill levels)
+            dict(harness="codec", prop="c06_cell", kind="enum"),   # encoder level: every write call's return value (fill level x operation x boundary argument)
         ],
     ),
     "C12": dict(
